@@ -210,7 +210,63 @@ def r2_no_hidden_state(ctx, res):
         raise AnalysisError('function enumeration collapsed')
 
 
+def memo_purity(ctx, res, only_module=None):
+    """local memo idiom `if K not in C: C[K] = V` (C outlives the current iteration): V must be a function of K alone."""
+    n = 0
+    for func in ctx.repo.all_funcs():
+        if only_module and func.module.short != only_module:
+            continue
+        for node in walk_no_nested(func.node):
+            if not (isinstance(node, ast.If) and isinstance(node.test, ast.Compare) and len(node.test.ops) == 1
+                    and isinstance(node.test.ops[0], ast.NotIn) and isinstance(node.test.comparators[0], ast.Name)):
+                continue
+            cname = node.test.comparators[0].id
+            ktext = norm(node.test.left)
+            for st in node.body:
+                if isinstance(st, ast.Assign) and any(isinstance(t, ast.Subscript) and norm(t.value) == cname and norm(t.slice) == ktext
+                                                      for t in st.targets):
+                    n += 1
+                    key = f'memo:{func.key}:{cname}[{ktext}]'
+                    knames = {x.id for x in ast.walk(node.test.left) if isinstance(x, ast.Name)}
+                    local_assigned = {t.id for x in walk_no_nested(func.node) if isinstance(x, (ast.Assign, ast.AnnAssign, ast.AugAssign, ast.For))
+                                      for t in ast.walk(x.targets[0] if isinstance(x, ast.Assign) else x.target) if isinstance(t, ast.Name)}
+                    # names bound inside the value expression itself (comprehension variables) are its own
+                    own = {t.id for c in ast.walk(st.value) if isinstance(c, ast.comprehension) for t in ast.walk(c.target) if isinstance(t, ast.Name)}
+                    vnames = {x.id for x in ast.walk(st.value) if isinstance(x, ast.Name)} - own
+                    # names computed inside the memo branch itself are part of the memoised computation: follow them
+                    inner = {}
+                    for x in ast.walk(node):
+                        if isinstance(x, ast.Assign) and x is not st:
+                            for t in x.targets:
+                                if isinstance(t, ast.Name):
+                                    inner.setdefault(t.id, set()).update(y.id for y in ast.walk(x.value) if isinstance(y, ast.Name))
+                    work, seen_n = list(vnames), set()
+                    while work:
+                        nm = work.pop()
+                        if nm in seen_n:
+                            continue
+                        seen_n.add(nm)
+                        if nm in inner:
+                            work.extend(inner[nm])
+                    vnames = {nm for nm in seen_n if nm not in inner}
+                    foreign = sorted((vnames & local_assigned) - knames - {cname})
+                    res.inst(key, func.module.loc(st), f'value depends on {sorted(vnames)}')
+                    if foreign:
+                        res.find(key, func.module.loc(st),
+                                 f'{func.qualname} caches `{cname}[{ktext}] = {norm(st.value)[:60]}` but the value also depends on {foreign}, '
+                                 f'state of the current walk/iteration: a later lookup of the same key reuses a value computed for another '
+                                 f'context (results then depend on the order of earlier calls / tokens)')
+    return n
+
+
+def r3_memo_purity(ctx, res):
+    n = memo_purity(ctx, res)
+    if n < 1:
+        raise AnalysisError('no local memo idiom found (ic.compute hypernym_cache expected)')
+
+
 RULES = [
     ('C16-R1', r1_ont, 300),
     ('C16-R2', r2_no_hidden_state, 300),
+    ('C16-R3', r3_memo_purity, 1),
 ]
